@@ -28,7 +28,10 @@ FUNCTIONS = [
     'pymap.parsing.response.specials:ExpungeResponse.__init__',
     'pymap.parsing.response.specials:ExistsResponse.__init__',
     'pymap.parsing.response.specials:FetchResponse.__init__',
-    'pymap.flags:SessionFlags.remove',
+    'pymap.flags:SessionFlags.remove', 'pymap.imap.state:ConnectionState.do_command',
+    'pymap.imap.state:ConnectionState.do_store', 'pymap.imap.state:ConnectionState.do_fetch',
+    'pymap.imap.state:ConnectionState.do_move', 'pymap.backend.session:BaseSession.move_messages',
+    'pymap.backend.session:BaseSession.update_flags', 'pymap.parsing.response:CommandResponse.add_untagged',
 ]
 ASSUMPTIONS = [
     'A-UID: a UID first reported to a session is greater than every UID it has been told before '
@@ -57,6 +60,8 @@ def setup() -> None:
         async def load_content(self, requirement):
             raise NotImplementedError
     _g.update(locals())
+    from checks import c02
+    c02.setup()
 
 
 class _Cmd:
@@ -188,10 +193,23 @@ def harnesses(tier):
         hs.append(Harness('set_messages_step[n=%d,k=%d]' % (n, k), _harness(n, k, True),
                           {'view': n, 'new': k, 'path': 'set_messages (full rescan)'},
                           replay='step', task_budget=60))
+    # session-level histories through ConnectionState.do_command on the dict backend (two sessions):
+    # shadow clients vs. server views after every command, and "the server applies a sequence-number
+    # command to the message the client means" (shares the driver of C02, convergence oracle off)
+    from checks import c02
+    hist = [(2, 2, c02.OPS), (3, 2, ['delete', 'move_seq', 'store_seen', 'fetch_body'])] if tier == 'quick' else \
+        [(2, 3, c02.OPS), (3, 3, ['delete', 'move_seq', 'store_seen', 'fetch_body', 'append'])]
+    for m, d, ops in hist:
+        hs.append(Harness('session_history[m=%d,d=%d,ops=%d]' % (m, d, len(ops)), c02._harness(m, d, ops, 'c01'),
+                          {'initial_messages': m, 'history_depth': d, 'ops': ops, 'sessions': 2},
+                          replay='history', task_budget=40))
     return hs
 
 
 def replay(harness, w):
+    if harness == 'history':
+        from checks import c02
+        return c02.replay(harness, w)
     from datetime import datetime
     from pymap.selected import SelectedMailbox
     from pymap.flags import PermanentFlags, SessionFlags
